@@ -151,6 +151,31 @@ class Ctx:
         self.pc.append(e if choice else z3.Not(e))
         return choice
 
+    def choose(self, e, values, complete=False):
+        """K-way path split: concretise integer expression e to one of `values`
+        (one path per feasible value).  Returns the chosen value, or None if no
+        value is feasible (e lies outside `values` on this path)."""
+        values = list(values)
+        pos = len(self.log)
+        other = z3.And(*[e != v for v in values]) if values else z3.BoolVal(True)
+        if pos < len(self.forced):
+            choice = self.forced[pos]
+        else:
+            feas = [v for v in values if self.feasible(e == v)]
+            if not complete and self.feasible(other):
+                feas.append("other")
+            if not feas:
+                feas = ["other"]
+            choice = feas[0]
+            for v in feas[1:]:
+                self.forks.append(self.log + [v])
+        self.log.append(choice)
+        if choice == "other":
+            self.pc.append(other)
+            return None
+        self.pc.append(e == choice)
+        return choice
+
     def split(self, t, f):
         """Two-way path split on a disjunction  t \\/ f  that is valid by
         construction (e.g. `exists i. bad(i)` skolemised vs `forall j. good(j)`)."""
@@ -263,6 +288,26 @@ def mk(e, **meta):
     return r
 
 
+_ITEMS = {}
+
+
+def remember(x):
+    """keep the proxy (with its known-bits / bit-slice metadata) of a value that is
+    stored into a sequence, so that reading the item back does not lose it"""
+    if isinstance(x, SymInt) and (x.kb is not None or x.parts is not None):
+        if len(_ITEMS) > 20000:
+            _ITEMS.clear()
+        _ITEMS[x.e.get_id()] = x
+    return x
+
+
+def mk_item(e):
+    o = _ITEMS.get(e.get_id())
+    if o is not None and o.e.eq(e):
+        return o
+    return mk(e)
+
+
 def mkw(e, width):
     r = mk(e)
     if isinstance(r, SymInt):
@@ -357,10 +402,10 @@ def fork_value(o):
         return None
     c = ctx()
     eo = as_z3_int(o)
-    for k in range(K - 1):
-        if c.decide(eo == k):
-            return k
-    return K - 1
+    r = c.choose(eo, range(K), complete=True)
+    if r is None:
+        raise PathEnd()      # infeasible path (the range was proved)
+    return r
 
 
 def and_const_z3(a, m):
@@ -431,9 +476,128 @@ def chain(eo, K, fn):
     return e
 
 
+def parts_of(x):
+    """Bit-slice decomposition of a non-negative value, or None.
+
+    A part is (lo, w, base, off, top): bits [lo, lo+w) of the value are bits
+    [off, off+w) of `base`; top means base has no bit at or above off+w.  The
+    value is the sum over parts of part_expr * 2**lo."""
+    if isinstance(x, bool):
+        x = int(x)
+    if isinstance(x, int):
+        if x < 0:
+            return None
+        return [(lo, w, z3.IntVal((x >> lo) & ((1 << w) - 1)), 0, True) for lo, w in _mask_runs(x)]
+    if isinstance(x, SymBool):
+        return [(0, 1, as_z3_int(x), 0, True)]
+    p = x.parts
+    if p is not None:
+        return p
+    kb = x.kb
+    if kb is not None and kb > 0 and kb & (kb + 1) == 0:
+        return [(0, kb.bit_length(), x.e, 0, True)]
+    return None
+
+
+def part_expr(p):
+    lo, w, base, off, top = p
+    t = div_pow2(base, off)
+    if not top:
+        t = t % z3.IntVal(1 << w)
+    return t
+
+
+def from_parts(parts):
+    parts = sorted((p for p in parts if p[1] > 0), key=lambda p: p[0])
+    if not parts:
+        return 0
+    # merge consecutive slices of the same base
+    merged = [parts[0]]
+    for p in parts[1:]:
+        q = merged[-1]
+        if (not q[4]) and p[0] == q[0] + q[1] and p[3] == q[3] + q[1] and p[2].get_id() == q[2].get_id():
+            merged[-1] = (q[0], q[1] + p[1], q[2], q[3], p[4])
+        else:
+            merged.append(p)
+    parts = merged
+    terms = []
+    kb = 0
+    for p in parts:
+        e = part_expr(p)
+        terms.append(e * z3.IntVal(1 << p[0]) if p[0] else e)
+        kb |= ((1 << p[1]) - 1) << p[0]
+    e = terms[0] if len(terms) == 1 else z3.Sum(terms)
+    r = mk(e)
+    if isinstance(r, SymInt):
+        r.parts = parts
+        r.kb = kb
+    return r
+
+
+def parts_and(parts, m):
+    out = []
+    for rlo, rw in _mask_runs(m):
+        for lo, w, base, off, top in parts:
+            a, b = max(lo, rlo), min(lo + w, rlo + rw)
+            if a < b:
+                out.append((a, b - a, base, off + (a - lo), top and b == lo + w))
+    return out
+
+
+def parts_shl(parts, c):
+    return [(lo + c, w, base, off, top) for lo, w, base, off, top in parts]
+
+
+def parts_shr(parts, c):
+    out = []
+    for lo, w, base, off, top in parts:
+        if lo >= c:
+            out.append((lo - c, w, base, off, top))
+        elif lo + w > c:
+            out.append((0, lo + w - c, base, off + (c - lo), top))
+    return out
+
+
+def _learn_disjoint(p, q):
+    """p has a known-bits mask, q has none: if q == base << s and base provably
+    fits the zero gap of p's mask at bit s, annotate q and report disjointness."""
+    M = p.kb
+    if M is None or getattr(q, "kb", None) is not None or not isinstance(q, SymInt):
+        return False
+    base, s = q.shl if q.shl is not None else (q, 0)
+    if not isinstance(base, SymInt):
+        return False
+    rest = M >> s
+    if rest & 1:
+        return False
+    if rest == 0:
+        g = None
+    else:
+        g = (rest & -rest).bit_length() - 1
+    c = ctx()
+    if g is None:
+        for cand in (8, 16, 32, 64, 128):
+            r, _ = c.check(z3.Not(z3.And(base.e >= 0, base.e < z3.IntVal(1 << cand))), timeout=1500)
+            if r == z3.unsat:
+                g = cand
+                break
+        if g is None:
+            return False
+    else:
+        r, _ = c.check(z3.Not(z3.And(base.e >= 0, base.e < z3.IntVal(1 << g))), timeout=1500)
+        if r != z3.unsat:
+            return False
+    q.kb = ((1 << g) - 1) << s
+    q.parts = [(s, g, base.e, 0, True)]
+    return True
+
+
 def and_sym(a, b):
     """a & b for two symbolic operands."""
     c = ctx()
+    if isinstance(a, SymInt) and isinstance(b, SymInt):
+        if _learn_disjoint(a, b) or _learn_disjoint(b, a):
+            return 0
     # rule: b == 2**i with i in a small range:  a & 2**i == bit_i(a) * 2**i
     for p, q in ((a, b), (b, a)):
         K = getattr(q, "smallcount", None)
@@ -561,10 +725,15 @@ def sym_not(x):
 # ---------------------------------------------------------------- SymInt
 
 class SymInt:
-    __slots__ = ("e", "kb", "lowzeros", "allones", "pow2of", "modrange", "smallcount")
+    __slots__ = ("e", "kb", "lowzeros", "allones", "pow2of", "modrange", "smallcount", "parts", "shl")
 
     def __init__(self, e, width=None):
         self.e = e
+        # parts: optional bit-slice decomposition [(lo, w, expr)], disjoint, with
+        # value == sum(expr * 2**lo) and 0 <= expr < 2**w (see parts_of/from_parts)
+        self.parts = None
+        # shl: (base, s) when this value was built as base << s (s concrete)
+        self.shl = None
         # kb: known-bits mask -- the value is known to be >= 0 and to have no 1
         # bit outside this mask (None: nothing known).  Maintained by
         # construction; every rule that uses it is exact.
@@ -628,9 +797,13 @@ class SymInt:
             raise Undecided("int + float")
         if not isinstance(o, (int, SymInt, SymBool)):
             return NotImplemented
+        ka, ko = self.kb, self._kb_of(o)
+        if ka is not None and ko is not None and ka & ko == 0:
+            pa, po = parts_of(self), parts_of(o)
+            if pa is not None and po is not None:
+                return from_parts(pa + po)
         r = mk(self.e + as_z3_int(o))
         if isinstance(r, SymInt):
-            ka, ko = self.kb, self._kb_of(o)
             if ka is not None and ko is not None:
                 if ka & ko == 0:
                     r.kb = ka | ko
@@ -656,6 +829,9 @@ class SymInt:
     def __mul__(self, o):
         if not isinstance(o, (int, SymInt, SymBool)):
             return NotImplemented
+        co = _concrete(o)
+        if co is not None and co > 0 and co & (co - 1) == 0 and parts_of(self) is not None:
+            return self << (co.bit_length() - 1)
         return mk(self.e * as_z3_int(o))
 
     __rmul__ = __mul__
@@ -747,9 +923,15 @@ class SymInt:
         if co is not None:
             if co < 0:
                 raise ValueError("negative shift count")
+            pa = parts_of(self)
+            if pa is not None:
+                return from_parts(parts_shl(pa, co))
             r = mk(self.e * z3.IntVal(1 << co))
-            if isinstance(r, SymInt) and self.kb is not None:
-                r.kb = self.kb << co
+            if isinstance(r, SymInt):
+                if self.kb is not None:
+                    r.kb = self.kb << co
+                else:
+                    r.shl = (self, co) if self.shl is None else (self.shl[0], self.shl[1] + co)
             return r
         if not isinstance(o, (SymInt, SymBool)):
             return NotImplemented
@@ -784,6 +966,9 @@ class SymInt:
         if co is not None:
             if co < 0:
                 raise ValueError("negative shift count")
+            pa = parts_of(self)
+            if pa is not None:
+                return from_parts(parts_shr(pa, co))
             r = mk(div_pow2(self.e, co))
             if isinstance(r, SymInt) and self.kb is not None:
                 r.kb = self.kb >> co
@@ -807,6 +992,11 @@ class SymInt:
     def __and__(self, o):
         co = _concrete(o)
         if co is not None:
+            pa = parts_of(self)
+            if pa is not None:
+                if co < 0:
+                    co = co & self.kb
+                return from_parts(parts_and(pa, co & self.kb))
             if co >= 0 and self.kb is not None:
                 co = co & self.kb
             r = mk(and_const_z3(self.e, co))
@@ -835,6 +1025,8 @@ class SymInt:
         if not isinstance(o, (int, SymInt, SymBool)):
             return NotImplemented
         a = self & o
+        if isinstance(a, int) and a == 0:
+            return self + o
         r = self + o - a
         if isinstance(r, SymInt):
             ka, ko = self.kb, self._kb_of(o)
@@ -848,6 +1040,8 @@ class SymInt:
         if not isinstance(o, (int, SymInt, SymBool)):
             return NotImplemented
         a = self & o
+        if isinstance(a, int) and a == 0:
+            return self + o
         r = self + o - 2 * a
         if isinstance(r, SymInt):
             ka, ko = self.kb, self._kb_of(o)
@@ -954,7 +1148,7 @@ class SymSeq:
     def from_list(items, kind="list"):
         if not items:
             return SymSeq(empty_seq(), kind, (0, 1) if False else None)
-        units = [z3.Unit(as_z3_int(x)) for x in items]
+        units = [z3.Unit(as_z3_int(remember(x))) for x in items]
         e = units[0] if len(units) == 1 else z3.Concat(*units)
         r = SymSeq(e, kind)
         cs = [_concrete(x) for x in items]
@@ -1032,7 +1226,7 @@ class SymSeq:
             if not bool((x >= 0) & (x < 256)):
                 raise ValueError("byte must be in range(0, 256)")
         self.elem_bounds = self._join_bounds(x)
-        self.e = z3.Concat(self.e, z3.Unit(as_z3_int(x)))
+        self.e = z3.Concat(self.e, z3.Unit(as_z3_int(remember(x))))
 
     def _concat_bounds(self, o):
         if self.is_empty_const():
@@ -1163,7 +1357,7 @@ class SymSeq:
         if isinstance(syn, SymSeq):
             return syn
         if isinstance(syn, tuple):
-            r = mk(syn[1])
+            r = mk_item(syn[1])
             self._assume_elem(r)
             return r
         if isinstance(i, slice):
@@ -1218,6 +1412,9 @@ class SymSeq:
                            z3.SubSeq(self.e, ei + 1, n - ei - 1))
 
     def __iter__(self):
+        parts = self._parts()
+        if all(u is not None for _, u in parts):
+            return iter([self[i] for i in range(len(parts))])
         return SymIter(self)
 
     def __repr__(self):
